@@ -405,5 +405,6 @@ func TestC04Large(t *testing.T) {
 	}, "large-volume-case")
 	evC04.Extra("large_case_keys", float64(nkeys))
 	evC04.Extra("large_case_expected_32bit_hash_colliding_pairs", expectedCollidingPairs)
-	evC04.Extra("large_case_insert_collisions", float64(g.Stats.InsertCollisions))
+	// Grouper.Stats is "strictly for info" and its layout may change: only its rendering is recorded
+	evC04.Extra("large_case_group_stats", fmt.Sprintf("%+v", g.Stats))
 }
